@@ -380,7 +380,31 @@ prop("C29",
           ("c29_apply_results_to_responses", "LeaderState::handle_apply_completed (verbatim function slice; async fn without awaits, de-sugared)",
            ["three waiters at consecutive indexes; the two apply results have distinct indexes (one result per log entry)"],
            "waiter index < 1000 symbolic; result indexes full width, outcomes symbolic"),
+          ("c29_apply_results_two_waiters", "LeaderState::handle_apply_completed (verbatim function slice; async fn without awaits, de-sugared)",
+           ["two waiters at consecutive indexes; two results at consecutive indexes starting at or just below the first waiter"],
+           "waiter index < 1000 symbolic; outcomes symbolic"),
+          ("c29_apply_results_unparked_entry_then_cas", "LeaderState::handle_apply_completed (verbatim function slice; async fn without awaits, de-sugared)",
+           ["waiters at indexes 6 and 7; results for index 5 (nobody waits: e.g. the term's no-op) and 6"], "indexes concrete, outcomes symbolic"),
           ("c29_step_down_drain", "LeaderState::drain_pending_writes_with_error (verbatim function slice)", ["two pending batches (three writes)"], "flags symbolic"))])
+
+# C36: the follower-side merge rule (verbatim slice of Raft::merge_append_entries)
+prop("C36",
+     "SCOPED to the merge rule itself: with two AppendEntries requests and another event queued, the second request is merged into the first ONLY if it starts exactly where the first "
+     "ends and carries the same term; the merged request keeps the first request's prev index/term, its entries are exactly the concatenation (nothing lost, duplicated or reordered), "
+     "its leader commit index is the larger of the two, both senders stay attached, and the following event keeps its place; a request that is not merged (gap, other term, cap "
+     "max_merge_entries) stays queued unchanged behind the first one.",
+     ["d-engine-core/src/raft.rs"],
+     ["that handling the merged request gives the same log / commit index / acknowledgements as handling the two one at a time: this needs the follower's conflict-append on a non-empty "
+      "log (not decidable, DESIGN 2c); in particular every merged sender receives the MERGED request's acknowledgement (read from role_state.rs, not decided)",
+      "more than two requests; requests of more than two entries"],
+     [TRUST_TOOL, "the slice environment (kani/shadow/src/mshim.rs) is faithful to std VecDeque for the use made of it"],
+     [H(n, "gen_merge::h", crate="shadow", timeout=600, common=False, loops=8,
+        functions=["Raft::merge_append_entries (verbatim function slice, kani/shadow/gen.py)"],
+        stubs=["function slice compiled as a method of a struct holding the two fields it touches (buffered_inbound_event, ctx.node_config.raft.batching.max_merge_entries); "
+               "VecDeque -> 4-slot array model; InboundEvent -> {AppendEntries(request, senders), Other}; AppendEntriesRequest / Entry -> structural stand-ins"],
+        assumptions=["queue = request A, request B, one other event"], bounds=b + "; terms, prev indexes (< 1000), commit indexes full width, max_merge_entries 0..=8: symbolic")
+      for (n, b) in (("c36_merge_two_requests_1_1", "A and B carry one entry each"), ("c36_merge_two_requests_2_1", "A carries two entries, B one"),
+                     ("c36_merge_heartbeat_then_entry", "A is empty (heartbeat), B carries one entry"))])
 
 # C05: the last log id that feeds the election restriction is right after compaction (purge boundary)
 PROPS["C05"]["harnesses"] += [h_c19_pu] + [
